@@ -20,11 +20,25 @@ static STEP: AtomicU64 = AtomicU64::new(1);
 /// stays uniform while the cost of reading the clock changes (cold / warm, contended / not).
 static LATE_AFTER: AtomicU64 = AtomicU64::new(0);
 static LATE_DELTA: AtomicU64 = AtomicU64::new(0);
+/// One end read in `REGRESS_EVERY` (0 = never; chosen pseudo-randomly per thread) returns a value `REGRESS_BY` ticks *below* the
+/// start read it follows: a counter that is not synchronised across cores, read after a migration. Time itself goes on.
+static REGRESS_EVERY: AtomicU64 = AtomicU64::new(0);
+static REGRESS_BY: AtomicU64 = AtomicU64::new(0);
+static REGRESS_SEED: AtomicU64 = AtomicU64::new(0);
 
 thread_local! {
     static OWN: Cell<u64> = const { Cell::new(0) };
     static READS: Cell<u64> = const { Cell::new(0) };
     static ALL_READS: Cell<u64> = const { Cell::new(0) };
+    static LAST_START: Cell<u64> = const { Cell::new(0) };
+    static END_READS: Cell<u64> = const { Cell::new(0) };
+}
+
+pub fn configure_regress(every: u64, by: u64, seed: u64) {
+    REGRESS_EVERY.store(every, SeqCst);
+    REGRESS_BY.store(by, SeqCst);
+    REGRESS_SEED.store(seed, SeqCst);
+    let _ = END_READS.try_with(|r| r.set(0));
 }
 
 /// Read cost `delta` for the calling thread's first `after` reads from now on, `late_delta` afterwards.
@@ -94,7 +108,24 @@ pub fn read(is_end: bool) -> u64 {
     if is_end {
         GLOBAL_MAX.fetch_max(own, Relaxed);
     }
-    let value = (own / step) * step;
+    let mut value = (own / step) * step;
+    if is_end {
+        let every = REGRESS_EVERY.load(Relaxed);
+        if every != 0 {
+            let n = END_READS
+                .try_with(|r| {
+                    r.set(r.get() + 1);
+                    r.get()
+                })
+                .unwrap_or(0);
+            if crate::rng::mix3(REGRESS_SEED.load(Relaxed), n, evlog::kidx() as u64) % every == 0 {
+                let start = LAST_START.try_with(|l| l.get()).unwrap_or(0);
+                value = (start.saturating_sub(REGRESS_BY.load(Relaxed)) / step) * step;
+            }
+        }
+    } else {
+        let _ = LAST_START.try_with(|l| l.set(value));
+    }
     evlog::log(if is_end { evlog::TS_END } else { evlog::TS_START }, value, own, 0);
     value
 }
